@@ -234,16 +234,56 @@ template<class T> struct Driver {
   }
 
   static std::vector<double> strictly_increasing(std::vector<double> v) { std::sort(v.begin(), v.end()); v.erase(std::unique(v.begin(), v.end()), v.end()); return v; }
+  std::vector<size_t> ask_order(size_t n) {
+    std::vector<size_t> o(n); for (size_t j = 0; j < n; j++) o[j] = j;
+    switch ((int)g.below(4)) {
+      case 0: break;                                                        // ascending
+      case 1: std::reverse(o.begin(), o.end()); break;                      // the largest first
+      case 2: if (n) std::rotate(o.begin(), o.begin() + (long)g.below(n), o.end()); break;   // some interior point first
+      default: for (size_t j = n; j > 1; j--) std::swap(o[j - 1], o[g.below(j)]); break;      // shuffled
+    }
+    return o;
+  }
+  // the same observation on COPIES of one sketch with a different query going first on each (quantile / rank / serialize /
+  // getters + CDF): every copy must give the same answers
+  void do_orderprobe(int i) {
+    const Proj& p = last[i];
+    std::vector<double> ps = {0.0, 0.01, 0.1, 0.25, 0.5, 0.75, 0.9, 0.99, 1.0};
+    std::vector<double> pool = value_pool(p), xs;
+    for (size_t j = 0; j < pool.size(); j += std::max<size_t>(1, pool.size() / 7)) xs.push_back(pool[j]);
+    xs = strictly_increasing(xs);
+    std::vector<T> pts; for (double v : xs) pts.push_back((T)v);
+    long nnan = 0;
+    auto quant = [&](TD& t, bool descending) { std::vector<double> q(ps.size()); for (size_t a = 0; a < ps.size(); a++) { size_t j = descending ? ps.size() - 1 - a : a; double v = (double)t.get_quantile(ps[j]); if (std::isnan(v)) { nnan++; v = -INFINITY; } q[j] = v; } return q; };
+    auto rank = [&](TD& t) { std::vector<double> r; for (T x : pts) { double v = t.get_rank(x); if (std::isnan(v)) { nnan++; v = -INFINITY; } r.push_back(v); } return r; };
+    TD a(*sk[i]), b(*sk[i]), c(*sk[i]), d(*sk[i]);
+    auto qa = quant(a, true);  auto ra = rank(a);                                   // quantile(1) is the very first call
+    auto rb = rank(b);         auto qb = quant(b, false);                            // rank first
+    (void)c.serialize(0, false); auto qc = quant(c, true); auto rc = rank(c);        // serialize first
+    (void)d.get_min_value(); (void)d.get_max_value(); (void)d.get_total_weight();
+    auto cdf = d.get_CDF(pts.data(), (uint32_t)pts.size()); std::vector<double> rd(cdf.begin(), cdf.end() - 1); for (double& v : rd) if (std::isnan(v)) { nnan++; v = -INFINITY; }
+    auto qd = quant(d, false);                                                       // getters and CDF first
+    Ev e("OrderProbe"); e.i("id", i).dl("ps", ps).dl("xs", xs).i("nnan", nnan);
+    e.key("qs"); e.s += "["; { Ev t("x"); bool f = true; for (auto* q : {&qa, &qb, &qc, &qd}) { Ev u("x"); u.s = ""; u.dl("v", *q); if (!f) e.s += ","; f = false; e.s += u.s.substr(u.s.find('[')); } } e.s += "]";
+    e.key("rs"); e.s += "["; { bool f = true; for (auto* r : {&ra, &rb, &rc, &rd}) { Ev u("x"); u.s = ""; u.dl("v", *r); if (!f) e.s += ","; f = false; e.s += u.s.substr(u.s.find('[')); } } e.s += "]";
+    if (rst[i]) e.b("restored", true);
+    e.emit();
+  }
+  void do_selfmerge(int i) {
+    sk[i]->merge(*sk[i]);
+    Ev e("SelfMerge"); e.i("id", i); finish(e, i);
+  }
   void do_rankgrid(int i, const std::vector<double>& xs_in) {
     const std::vector<double> xs = strictly_increasing(xs_in);   // (min == max: the grid must not repeat a value)
-    std::vector<double> rs; long nnan = 0;
-    for (double x : xs) { double r = sk[i]->get_rank((T)x); if (std::isnan(r)) { nnan++; r = -INFINITY; } rs.push_back(r); }
+    // the answers must not depend on which query ran first (the first one compresses): ask in a rotating order, log ascending
+    std::vector<double> rs(xs.size()); long nnan = 0;
+    for (size_t j : ask_order(xs.size())) { double r = sk[i]->get_rank((T)xs[j]); if (std::isnan(r)) { nnan++; r = -INFINITY; } rs[j] = r; }
     Ev e("RankGrid"); e.i("id", i).dl("xs", xs).dl("rs", rs).i("nnan", nnan).i("maxdrop", max_drop<double>(rs)); finish(e, i);
   }
   void do_quantgrid(int i, const std::vector<double>& ps_in) {
     const std::vector<double> ps = strictly_increasing(ps_in);
-    std::vector<double> qs; long nnan = 0;
-    for (double p : ps) { double q = (double)sk[i]->get_quantile(p); if (std::isnan(q)) { nnan++; q = -INFINITY; } qs.push_back(q); }
+    std::vector<double> qs(ps.size()); long nnan = 0;
+    for (size_t j : ask_order(ps.size())) { double q = (double)sk[i]->get_quantile(ps[j]); if (std::isnan(q)) { nnan++; q = -INFINITY; } qs[j] = q; }
     Ev e("QuantGrid"); e.i("id", i).dl("ps", ps).dl("qs", qs).i("nnan", nnan).i("maxdrop", max_drop<T>(qs)); finish(e, i);
   }
   void do_cdf(int i, const std::vector<double>& sp_in) {
@@ -421,6 +461,7 @@ template<class T> struct Driver {
       do_updates(0, std::vector<double>{draw()});
       int w = (int)g.below(20);
       if (w == 0) do_quantgrid(0, std::vector<double>{0.0, 0.25, 0.5, 1.0});
+      else if (w == 2) do_orderprobe(0);
       else if (w == 1) do_rankgrid(0, std::vector<double>{last[0].mn, last[0].mx});
       else do_compress(0);
     }
@@ -443,8 +484,9 @@ template<class T> struct Driver {
   // observed with every query before and after a compress
   void observe_all(int i) {
     if (last[i].empty) { do_emptyquery(i); return; }
+    do_orderprobe(i);   // first: on copies that still hold whatever is buffered
     auto pool = value_pool(last[i]);
-    do_rankgrid(i, pool); do_quantgrid(i, rank_pool(last[i]));
+    if (g.chance(50)) { do_quantgrid(i, rank_pool(last[i])); do_rankgrid(i, pool); } else { do_rankgrid(i, pool); do_quantgrid(i, rank_pool(last[i])); }
     do_cdf(i, std::vector<double>{pool[pool.size() / 2]}); do_cdf(i, pool.size() > 6 ? std::vector<double>(pool.begin() + 1, pool.begin() + 6) : pool);
     do_badquery(i, last[i].mn, last[i].mx);
     { Ev e("Obs"); e.i("id", i).raw("r", proj_json(project(*sk[i]))); e.emit(); }
@@ -466,6 +508,7 @@ template<class T> struct Driver {
         default: do_nan(0); do_updates(0, std::vector<double>{v, w, v}); break;
       }
       observe_all(0); do_compress(0); observe_all(0);
+      if (round % 3 == 0) { do_selfmerge(0); observe_all(0); }   // a.merge(a) doubles the weight
       mk(1, 10); do_merge(0, 1); do_merge(1, 0); observe_all(1);   // merging an empty sketch, merging into an empty sketch
     }
   }
@@ -662,6 +705,9 @@ template<class T> struct Driver {
         }
       } else if (op < 90 - sp) {
         if (!last[i].empty && !bad) { double a = draw(), b = draw(); do_badquery(i, a, b); if (tw) { do_badquery(i + NS, a, b); twin_mark(i); } }
+      } else if (op < 93 - sp && !last[i].empty && !bad && g.chance(45)) {
+        if (g.chance(75) || foreign[i]) { do_orderprobe(i); if (tw) do_orderprobe(i + NS); }
+        else { do_selfmerge(i); if (tw) { do_selfmerge(i + NS); twin_mark(i); } }
       } else if (op < 93 - sp) {
         { Ev e("Obs"); e.i("id", i).raw("r", proj_json(project(*sk[i]))); if (rst[i]) e.b("restored", true); e.emit(); }
         if (tw) { Ev("Obs").i("id", i + NS).raw("r", proj_json(project(*sk[i + NS]))).b("restored", true).emit(); twin_mark(i); }
